@@ -28,6 +28,10 @@ type splitCase struct {
 	Chunks      []int `json:"chunks"`
 	Chunks2     []int `json:"chunks2"`
 	EOFSeparate bool  `json:"eof_separate"`
+	// ViaSQL: the first run does not plant the scripted upstream; the entries reach the chain as
+	// database/sql rows through the real ClickhouseGetterPlanner.Scan (batches of 100). The
+	// second run is always planted, with Chunks2.
+	ViaSQL bool `json:"via_sql,omitempty"`
 }
 
 // ---- pools --------------------------------------------------------------------------------
@@ -396,8 +400,25 @@ func genCaseOpt(rt *rapid.T, opt genOpts) splitCase {
 	// whatever the convention, lines {"level":"info"} and {"level":"error"} of one stream are
 	// two label sets and must be two series. In two thirds of these cases the query stays
 	// "plain": no later drop / label_format / by / without that would recompute identities.
-	tmplMode := rapid.IntRange(0, 4).Draw(rt, "tmplmode") == 0
-	rxMode := !tmplMode && rapid.IntRange(0, 4).Draw(rt, "rxmode") == 0
+	// A third of the cases go through the real ClickhouseGetterPlanner.Scan (scripted entries
+	// handed over as database/sql rows); a third of those carry enough rows for several batches
+	// of 100. "lfFirst" pipelines (half of the via-SQL cases, an eighth of the others) have NO
+	// parser in front of their first label-editing stage: the split is forced by line_format,
+	// then come non-idempotent / self-referential label_format, drop, by / without - stages that
+	// edit the label map the getter handed over in place.
+	c.ViaSQL = rapid.IntRange(0, 2).Draw(rt, "via_sql") == 0
+	big := c.ViaSQL && rapid.IntRange(0, 2).Draw(rt, "big") == 0
+	lfFirst := false
+	if c.ViaSQL {
+		lfFirst = rapid.Bool().Draw(rt, "lf_first")
+	} else {
+		lfFirst = rapid.IntRange(0, 7).Draw(rt, "lf_first") == 0
+	}
+	if lfFirst && shape >= 4 {
+		shape, ulabel = 3, ""
+	}
+	tmplMode := !lfFirst && rapid.IntRange(0, 4).Draw(rt, "tmplmode") == 0
+	rxMode := !lfFirst && !tmplMode && rapid.IntRange(0, 4).Draw(rt, "rxmode") == 0
 	rxPat, rxFamily := "", rxWords
 	if rxMode {
 		rxPat = pick(rt, rxPatterns, "rx_pat")
@@ -414,7 +435,7 @@ func genCaseOpt(rt *rapid.T, opt genOpts) splitCase {
 			rxFamily = []string{"a\nb", "a.b", "axb", "A\nB", "A.B", "ab"}
 		}
 	}
-	collide := !tmplMode && rapid.IntRange(0, 3).Draw(rt, "collidemode") == 0
+	collide := !lfFirst && !tmplMode && rapid.IntRange(0, 3).Draw(rt, "collidemode") == 0
 	collideName := ""
 	plain := false
 	if collide {
@@ -449,6 +470,9 @@ func genCaseOpt(rt *rapid.T, opt genOpts) splitCase {
 		seenSets[k] = true
 		ser := refeval.Series{Labels: lbl}
 		ne := rapid.IntRange(1, 8).Draw(rt, "nentries")
+		if big {
+			ne = rapid.IntRange(50, 110).Draw(rt, "nentries_big")
+		}
 		for i := 0; i < ne; i++ {
 			// mostly inside the window, some just outside, ms resolution plus a few ns
 			off := int64(rapid.IntRange(-1500, int((c.ToS-c.FromS)*1000)+1500).Draw(rt, "ts_ms"))
@@ -554,7 +578,17 @@ func genCaseOpt(rt *rapid.T, opt genOpts) splitCase {
 			c.Expr.Stages = append(c.Expr.Stages, st)
 		}
 	}
+	if lfFirst {
+		c.Expr.Stages[len(c.Expr.Stages)-1] = refeval.Stage{Kind: refeval.KLineFormat, Val: genTemplate(rt, streamLabelNames)}
+		n := rapid.IntRange(1, 3).Draw(rt, "lf_nedit")
+		for i := 0; i < n; i++ {
+			c.Expr.Stages = append(c.Expr.Stages, genLabelEdit(rt))
+		}
+	}
 	npost := rapid.IntRange(0, 3).Draw(rt, "npost")
+	if lfFirst {
+		npost = 0
+	}
 	for i := 0; i < npost; i++ {
 		st := genPostStage(rt, opt)
 		if plain && st.Kind != refeval.KLineFilter && st.Kind != refeval.KLabelFilter {
@@ -699,4 +733,35 @@ func numOrStr(v string) string {
 		return v
 	}
 	return strconv.Quote(v)
+}
+
+// genLabelEdit draws a stage that works on the labels the getter delivered, with no parser in
+// between: label_format whose template reads the label it writes (applied twice it would give
+// another value), plain copies, drop, or a filter on stream labels.
+func genLabelEdit(rt *rapid.T) refeval.Stage {
+	switch rapid.IntRange(0, 7).Draw(rt, "edit") {
+	case 0, 1, 2:
+		p := []refeval.Param{
+			{Name: "app", Val: "{{.app}}.example.org", HasVal: true},
+			{Name: "env", Val: "{{.env}}-{{.app}}", HasVal: true},
+			{Name: "app", Val: "{{ToUpper .app}}x", HasVal: true},
+			{Name: "app", Val: "a{{.app}}", HasVal: true},
+			{Name: "host", Val: "{{.app}}.{{.env}}.example.org", HasVal: true},
+			{Name: "env", Val: "{{.app}}{{.env}}{{.app}}", HasVal: true},
+		}[rapid.IntRange(0, 5).Draw(rt, "edit_tpl")]
+		return refeval.Stage{Kind: refeval.KLabelFormat, Params: []refeval.Param{p}}
+	case 3:
+		p := []refeval.Param{{Name: "app", Src: "env"}, {Name: "out", Src: "app"}, {Name: "env", Src: "app"}}[rapid.IntRange(0, 2).Draw(rt, "edit_copy")]
+		return refeval.Stage{Kind: refeval.KLabelFormat, Params: []refeval.Param{p}}
+	case 4, 5:
+		p := refeval.Param{Name: pick(rt, []string{"env", "app", "job"}, "edit_drop")}
+		if rapid.IntRange(0, 2).Draw(rt, "edit_dropval") == 0 {
+			p.HasVal, p.Val = true, pick(rt, streamLabelVals, "edit_dropv")
+		}
+		return refeval.Stage{Kind: refeval.KDrop, Params: []refeval.Param{p}}
+	case 6:
+		return refeval.Stage{Kind: refeval.KLabelFilter, Filter: genLabelFilterLeaf(rt, []string{"app", "env"})}
+	default:
+		return genLineFilter(rt)
+	}
 }
